@@ -34,10 +34,14 @@ type cacheEntry struct {
 }
 
 type Loader struct {
-	mu      sync.RWMutex
-	cache   map[string]cacheEntry
-	limits  Limits
-	overlay func(path string) (string, bool)
+	mu    sync.RWMutex
+	cache map[string]cacheEntry
+	// cacheGen counts what outdates cached files: a change of limits, an
+	// invalidated file, a cleared cache. A file read while the count moved is
+	// used by the resolution that read it but not kept for later ones.
+	cacheGen uint64
+	limits   Limits
+	overlay  func(path string) (string, bool)
 }
 
 func NewLoader() *Loader {
@@ -71,6 +75,7 @@ func (l *Loader) SetLimits(limits Limits) {
 	if limits != l.limits {
 		// files were admitted to the cache under the old limits
 		l.cache = make(map[string]cacheEntry)
+		l.cacheGen++
 	}
 	l.limits = limits
 }
@@ -108,6 +113,12 @@ func (l *Loader) getLimits() Limits {
 	l.mu.RLock()
 	defer l.mu.RUnlock()
 	return l.limits
+}
+
+func (l *Loader) getLimitsAndCacheGen() (Limits, uint64) {
+	l.mu.RLock()
+	defer l.mu.RUnlock()
+	return l.limits, l.cacheGen
 }
 
 func (l *Loader) Load(path string) (*ResolvedJournal, []LoadError) {
@@ -268,7 +279,7 @@ func (l *Loader) loadSingleInclude(
 	verifhook.Point("include.load", includePath)
 	defer verifhook.Point("include.loaded", includePath)
 	var errors []LoadError
-	limits := l.getLimits()
+	limits, cacheGen := l.getLimitsAndCacheGen()
 
 	if state.ancestors[includePath] {
 		errors = append(errors, LoadError{
@@ -355,7 +366,11 @@ func (l *Loader) loadSingleInclude(
 	entry = parseFile(includePath, string(incContent))
 	if entry.journal != nil {
 		l.mu.Lock()
-		l.cache[includePath] = entry
+		// the limits may have changed, or the file may have been invalidated,
+		// since this file was admitted and read
+		if l.cacheGen == cacheGen {
+			l.cache[includePath] = entry
+		}
 		l.mu.Unlock()
 	}
 
@@ -414,10 +429,12 @@ func (l *Loader) ClearCache() {
 	l.mu.Lock()
 	defer l.mu.Unlock()
 	l.cache = make(map[string]cacheEntry)
+	l.cacheGen++
 }
 
 func (l *Loader) InvalidateFile(path string) {
 	l.mu.Lock()
 	defer l.mu.Unlock()
 	delete(l.cache, path)
+	l.cacheGen++
 }
